@@ -24,7 +24,7 @@ CHECKS = {
          "Trusted: refeval.rs (reference evaluator with unit tests from R7RS examples), the generator's typing discipline. Programs whose integers leave i32 are outside the class (counted).",
          "DESIGN.md §5 C01"),
  "C02": ("generated loop programs (loop shape x composition of tail contexts x N) with a host probe sampling the real machine stack address and the thread's live heap at every iteration; closed-form result oracle",
-         "Exploration with physical measurement: every shape x every single context, every depth-2 composition (quick: self shape; thorough: all 21 shapes), sampled depth-3, over 23 tail contexts (incl. tests that are variables or non-boolean true values; loops without operands); stack growth between the first eighth and the second half must stay below 2 KiB and live heap growth below 1 byte/iteration for N=4000 (thorough 40000).",
+         "Exploration with physical measurement: every shape x every single context, every depth-2 composition (quick: self shape; thorough: all 25 shapes, incl. four variadic loops with an empty rest list), sampled depth-3, over 23 tail contexts (incl. tests that are variables or non-boolean true values; loops without operands); stack growth between the first eighth and the second half must stay below 2 KiB and live heap growth below 1 byte/iteration for N=4000 (thorough 40000).",
          "Trusted: the probe (address of a local in a native procedure, counting global allocator per thread). Measured on this build only. Known finding (recorded in known_findings.json): a body with an internal procedure definition leaks its frame (heap only; the stack bound is still checked for that shape).",
          "DESIGN.md §5 C02"),
  "C03": ("stateful operation histories (proptest choice sequences interpreted as a state machine) against the store model of the reference evaluator + identity-partition check on Rc addresses",
